@@ -9,9 +9,11 @@ package main
 // background jobs (goroutines of jm) block at every storage / issuer operation until the harness
 // lets them advance; a maintenance pass blocks between its scan and its act phase (at its first
 // Info-level log entry, through the cache's logger). After every event the cache, the name index,
-// the served certificates, storage, the issuer log and the job manager are observed. The history
-// and the observations are replayed on the Coq model (Maintain.Model) and checked against the
-// property's clauses (Maintain.Spec).
+// the served certificates, storage, the issuer log, the job manager and the Revoked statuses of the
+// cache entries are observed. Revocations (a status set through a hook) and OCSP passes (the real
+// updateOCSPStaples, with forceRenew for revoked certificates) are events too. The history and the
+// observations are replayed on the Coq model (Maintain.Model, Maintain.XModel) and checked against
+// the property's clauses (Maintain.Spec, XModel.xspec_step).
 
 import (
 	"bytes"
@@ -1652,7 +1654,8 @@ func runC05(tier string, seed int64, outdir string, replay string) error {
 	w.Meta.Rule = "distinct histories in which the cache changed, the issuer was called (successfully or not) or a background job was submitted"
 	w.Meta.Notes = []string{
 		"lock-step: background jobs are released one storage/issuer operation at a time; a pass stops between scan and act at its first Info log entry",
-		"IssuerDouble does not implement RenewalInfoGetter: ARI paths are inert; harness certificates carry no OCSP responder: no staple, no revocation",
+		"IssuerDouble does not implement RenewalInfoGetter: ARI paths are inert; harness certificates carry no OCSP responder: nothing is stapled; a Revoked status is set on a cache entry through the hook VerifMaintainMarkRevoked, the OCSP pass is the real updateOCSPStaples",
+		"a forced renewal (revocation) inside the OCSP pass is ended after one failed attempt by an ErrNoRetry answer of the issuer double; OCSP passes only with an issuer whose certificates are not already due",
 	}
 	if replay != "" {
 		rc, err := loadReplay(replay)
